@@ -31,6 +31,20 @@ def c20_crossbuild(pid, tier, seed, st, log, env):
         r, ln, ra, rb = bad
         info["violations"].append(("failing-input", _replay(env, pid, r.case.lines[:ln + 2], f"default-build {r.case.lines[ln]} gives {ra}, portable routine gives {rb}"),
                                    f"assembly and portable routine differ on {r.case.lines[ln]}"))
+    # (a') the same boundary-limb cases under the purego build, against the big-integer oracle and against the default build
+    resp, _ = engine.run_cases(cases, os.path.join(BUILD, "edgo_purego"), None, want_model=False)
+    engine.analyse(resp, with_corr=False)
+    for ra_, rp in zip(res, resp):
+        rel = [m for m in rp.mismatches if engine.relevant(pid, m)]
+        k = next((i for i in range(min(len(ra_.go), len(rp.go))) if ra_.go[i] != rp.go[i]), None)
+        if rel or k is not None:
+            ok = False
+            ln = rel[0].lineno if rel else k
+            det = repr(rel[0]) if rel else f"default build: {ra_.go[k][:300]} / purego build: {rp.go[k][:300]}"
+            info["violations"].append(("failing-input", _replay(env, pid, rp.case.lines[:ln + 1], "purego build (-tags purego): " + det),
+                                       "purego build: " + det[:300]))
+            break
+    info["coverage"]["purego_boundary_cases"] = len(resp)
     # (b)
     progs = []
     for g in ("C02", "C09", "C10", "C16", "C01"):
@@ -80,6 +94,33 @@ def c18_race(pid, tier, seed, st, log, env):
             info["coverage"]["race_build"] = "unavailable: " + out[-300:]
             return True, info        # the race detector is supporting evidence only
         open(stamp, "w").write(st.get("tree_hash", ""))
+    # the same program without the race detector's instrumentation, more iterations: assembly routines are invisible to
+    # the detector, and uninstrumented code runs the goroutines with real parallelism -- wrong results are the signal
+    plain = os.path.join(BUILD, "edpar")
+    pstamp = os.path.join(BUILD, "edpar.tree")
+    if not os.path.exists(plain) or not os.path.exists(pstamp) or open(pstamp).read() != st.get("tree_hash", ""):
+        if os.path.exists(plain):
+            os.remove(plain)
+        rc, out, dt = sh(["go", "build", "-o", plain, "./cmd/edrace"], cwd=os.path.join(ROOT, "harness"), env=env["GOENV"])
+        log(f"build edpar (no -race) rc={rc} {dt:.1f}s")
+        if rc == 0:
+            open(pstamp, "w").write(st.get("tree_hash", ""))
+    if os.path.exists(plain):
+        pruns = 0
+        for k in range(3 if tier == "quick" else 20):
+            n, sd, it = (16, seed * 100 + 50 + k, 60 if tier == "quick" else 200)
+            rc, out, dt = sh([plain, str(n), str(sd), str(it)], timeout=600)
+            pruns += 1
+            if rc != 0:
+                d = os.path.join(ROOT, "evidence", "replay")
+                os.makedirs(d, exist_ok=True)
+                p = os.path.join(d, f"{pid}-par-{n}-{sd}.json")
+                json.dump({"property": pid, "kind": "failing-input", "command": f"/verif/build/edpar {n} {sd} {it}  (go build ./cmd/edrace in /verif/harness)",
+                           "exit_status": rc, "output_tail": out[-4000:]}, open(p, "w"), indent=1)
+                info["violations"].append(("failing-input", p, f"concurrent result differs from sequential result with {n} goroutines sharing read-only operands (seed {sd})"))
+                info["coverage"]["parallel_runs"] = pruns
+                return False, info
+        info["coverage"]["parallel_runs"] = pruns
     runs = 0
     ns = [2, 3, 8, 16, 64] if tier == "quick" else [2, 3, 4, 8, 16, 32, 64, 128]
     reps = 2 if tier == "quick" else 12
